@@ -332,14 +332,24 @@ class Sym:
     def __invert__(self):
         return Not(self)
 
+    def __array_function__(self, func, types, args, kwargs):
+        # numpy functions applied to symbolic SCALARS (np.isclose(t_flow, t_body), np.allclose, np.amax ...)
+        from . import symarray
+
+        h = symarray._FUNCS.get(func)
+        if h is not None:
+            return h(*args, **kwargs)
+        return func._implementation(*args, **kwargs)
+
     # ---- concretisation -------------------------------------------------------------
     def __bool__(self):
         if self.op == "c":
             return bool(self.args[0])
-        if self.sort != BOOL:
-            raise SymError("truth value of a symbolic real")
         if HOOKS.decide_bool is None:
             raise SymError(f"data-dependent branch on {self!r} outside a path context")
+        if self.sort != BOOL:
+            # Python's truth value of a number: x != 0  (`if not np.amax(v): ...`)
+            return HOOKS.decide_bool(Not(_cmp("eq", self, ZERO)))
         return HOOKS.decide_bool(self)
 
     def __int__(self):
